@@ -71,6 +71,7 @@ class Assembled:
         self.inventory = []  # per Fn/Stub: dict
         self.rewrites = []  # (rule, where)
         self.dropped_hints = {}  # qname -> number of proof hints whose anchor is lost (not placed)
+        self.lost_claims = {}  # qname -> [(clause id, props)] claims whose anchored statement is no longer in the body
         self.trusted = []  # names of assumed items
         self.canaries = {}  # canary fn name -> fn qname
         self.keys = []
@@ -433,8 +434,10 @@ def process_fn(asm, f, unit):
         try:
             s0, e0, positional = _resolve_anchor(textA, body0, pat, nth, "hint", f, unit.name, "hints", k)
         except LostAnchor:
-            if where_ in ("at", "atend") or "let ghost" in text or "let tracked" in text:
-                raise  # inline hints and ghost declarations (later text depends on them) cannot be left out
+            if where_ in ("at", "atend"):
+                raise  # inline hints (labels, iterator names inside an expression) cannot be left out
+            # (a hint that declares ghost variables is left out too: text that depends on them then fails to COMPILE, which is handled as
+            # "hint does not compile" / undecided by the checker, never as a violation)
             # a proof aid that cannot be placed is left out: the function is then either proved without it, or reported UNDECIDED
             # (never as a violation: vx/check.py downgrades failures of functions listed here)
             asm.dropped_hints[f.qname()] = asm.dropped_hints.get(f.qname(), 0) + 1
@@ -464,7 +467,8 @@ def process_fn(asm, f, unit):
             seg_ = textA[body0:]
             ms_ = list(re.finditer(pat, seg_)) or list(re.finditer(_relax(pat), seg_))
             if not ms_:
-                raise LostAnchor("%s::%s: claim anchor /%s/ (every occurrence) not found" % (f.file, f.name, pat))
+                asm.lost_claims.setdefault(f.qname(), []).append((c[5] if len(c) > 5 else tag, c[4] if len(c) > 4 else None))
+                continue
             for m_ in ms_:
                 if where_ == "before":
                     ed.insert(textA.rfind("\n", 0, body0 + m_.start()) + 1, text.strip() + "\n", tag)
@@ -472,9 +476,15 @@ def process_fn(asm, f, unit):
                     at_ = textA.find("\n", body0 + m_.end())
                     ed.insert(len(textA) if at_ < 0 else at_ + 1, text.strip() + "\n", tag)
             continue
-        s0, e0, positional = _resolve_anchor(textA, body0, pat, nth, "claim", f, unit.name, "claims", k)
-        if positional and where_ in ("at", "atend"):
-            raise LostAnchor("%s::%s: claim anchor /%s/ #%d not found (inline claim: no positional fallback)" % (f.file, f.name, pat, nth))
+        try:
+            s0, e0, positional = _resolve_anchor(textA, body0, pat, nth, "claim", f, unit.name, "claims", k)
+            if positional and where_ in ("at", "atend"):
+                raise LostAnchor("inline claim: no positional fallback")
+        except LostAnchor:
+            # the statement the claim is about is gone: the claim is UNDECIDED (reported as such), the rest of the function is still checked:
+            # a violation found elsewhere is a violation all the same
+            asm.lost_claims.setdefault(f.qname(), []).append((c[5] if len(c) > 5 else tag, c[4] if len(c) > 4 else None))
+            continue
         if where_ == "before":
             at = textA.rfind("\n", 0, s0) + 1
             ed.insert(at, text.strip() + "\n", tag)
